@@ -142,6 +142,19 @@ def m_zeros(interp, shape, dtype=float, **kw):
     return SArr.from_fn(lambda *i: z, shape, dtype)
 
 
+@model(np.diagonal)
+def m_diagonal(interp, a, offset=0, axis1=0, axis2=1):
+    if not isinstance(a, SArr):
+        return _native(np.diagonal, a, offset, axis1, axis2)
+    if a.ndim != 2 or offset != 0 or (axis1, axis2) != (0, 1):
+        raise Unsupported("np.diagonal other than the main diagonal of a 2-D array")
+    n, m = a.shape
+    if not (isinstance(n, int) and isinstance(m, int)):
+        raise Unsupported("np.diagonal of an array with symbolic shape")
+    src = a.frozen()
+    return SArr.from_fn(lambda i: src.elem(i, i), (min(n, m),), a.dtype)
+
+
 @model(np.full)
 def m_full(interp, shape, fill_value, dtype=None, **kw):
     """np.full(shape, v, dtype) == (a = np.empty(shape, dtype); a[...] = v; a)"""
